@@ -443,4 +443,9 @@ class ProgressBar(object):
         return self._max
 
     def _formatter_percent(self):
-        return int(math.floor(self._percent * 100))
+        if not self._max:
+            return 0
+
+        # Integer arithmetic: floor(float(step / max) * 100) is off by one
+        # for some pairs, e.g. 29/50 gave 57.
+        return int(self._step * 100 // self._max)
